@@ -1,6 +1,7 @@
 package exec
 
 import (
+	"errors"
 	"math"
 	"strconv"
 	"strings"
@@ -71,13 +72,7 @@ func (n String) String() string {
 }
 
 func (n String) Number() float64 {
-	ret, err := strconv.ParseFloat(string(n), 64)
-
-	if err != nil {
-		return math.NaN()
-	}
-
-	return ret
+	return getStringNumber(string(n))
 }
 
 func (n String) Bool() bool {
@@ -102,10 +97,33 @@ func (n NodeSet) Bool() bool {
 	return len(n) > 0
 }
 
+// getStringNumber converts a string to a number as the number() function
+// does: optional whitespace, an optional minus sign, a Number (digits with an
+// optional fraction, or a fraction alone), optional whitespace.  Every other
+// string is NaN.
 func getStringNumber(str string) float64 {
+	str = strings.Trim(str, " \t\r\n")
+	hasDigit, hasPoint := false, false
+
+	for i, c := range str {
+		switch {
+		case c >= '0' && c <= '9':
+			hasDigit = true
+		case c == '.' && !hasPoint:
+			hasPoint = true
+		case c == '-' && i == 0:
+		default:
+			return math.NaN()
+		}
+	}
+
+	if !hasDigit {
+		return math.NaN()
+	}
+
 	ret, err := strconv.ParseFloat(str, 64)
 
-	if err != nil {
+	if err != nil && !errors.Is(err, strconv.ErrRange) {
 		return math.NaN()
 	}
 
